@@ -21,7 +21,7 @@ def run(chk):
         replay_cases(chk, "FreeSpace", "FreeSpace_quick", "all configurations of <=2 blocking rectangles")
         replay_cases(chk, "FreeSpace", "FreeSpace_flags", "1 rectangle x every fixed/obstruction flag combination")
     else:
-        replay_cases(chk, "FreeSpace", "FreeSpace_thorough", "all configurations of <=3 blocking rectangles", workers=16, xmx="24g")
+        replay_cases(chk, "FreeSpace", "FreeSpace_thorough", "all configurations of <=3 blocking rectangles", workers=16, xmx="12g")
         replay_cases(chk, "FreeSpace", "FreeSpace_flags2", "<=2 rectangles x every fixed/obstruction flag combination", workers=16)
     plan = [dict(flavour="asan-ubsan", scen="free", runs=(400, 10000), opts={"varyScale": 1}),
             # the free rows of the state defined by a history of public mutator calls (flags as given by the caller, any call order)
